@@ -67,8 +67,43 @@ AdlerPrefixes(seed, msg) == FoldLeft(LAMBDA acc, b : Append(acc, AdlerStep(acc[L
 AdlerToBam1(s) == <<(s[1] + AdlerMod - 1) % AdlerMod, s[2]>>
 AdlerFromBam1(s) == <<(s[1] + 1) % AdlerMod, s[2]>>
 
+
+Check9 == <<49, 50, 51, 52, 53, 54, 55, 56, 57>>     \* the ASCII string "123456789"
+
+(* ---- algebra: advancing through zero bytes, and combining ---- *)
+(* The register is a polynomial over GF(2) of degree < W (normal form: bit i = coefficient of x^i); one zero byte multiplies it  *)
+(* by x^8 modulo the generator.  StepNormBit IS multiplication by x, so n zero bytes are one multiplication by x^(8n), computed   *)
+(* by square-and-multiply.  Lengths beyond 32 bits are given as their binary digits, most significant first (TLC integers are     *)
+(* 32-bit).  A reflected CRC is the same map on the bit-reversed register.                                                        *)
+LimbBit(a, i) == Bit(a[(i \div 16) + 1], i % 16)                     \* bit i of a limb word
+PolyMulMod(a, b, poly) ==                                              \* a * b mod P, Horner over the bits of b
+  LET w == 16 * Len(a) IN
+  FoldLeft(LAMBDA r, k : LET r2 == StepNormBit(r, poly) IN IF LimbBit(b, w - 1 - k) = 1 THEN LimbXor(r2, a) ELSE r2, LimbZero(Len(a)), Range0(w))
+PolyOne(n) == [i \in 1..n |-> IF i = 1 THEN 1 ELSE 0]
+XPowBits(bits, poly) ==                                                \* x^e mod P for e given in binary, MSB first
+  FoldLeft(LAMBDA r, bit : LET sq == PolyMulMod(r, r, poly) IN IF bit = 1 THEN StepNormBit(sq, poly) ELSE sq, PolyOne(Len(poly)), bits)
+(* raw register after n zero bytes; nbits = binary digits of n *)
+ZerosRaw(p, reg, nbits) ==
+  LET xp == XPowBits(nbits \o <<0, 0, 0>>, p.poly) IN
+  IF p.refl THEN ReflectW(PolyMulMod(ReflectW(reg), xp, p.poly)) ELSE PolyMulMod(reg, xp, p.poly)
+RawFold(f, reg, msg) == LET p == Params[f]  T == Tables[f] IN FoldLeft(LAMBDA c, b : ByteTab(c, b, T, p.refl), reg, msg)
+(* checksum of  a \o (n zero bytes) \o b  continuing from seed *)
+CrcWithZeros(f, seed, a, nbits, b) == LET p == Params[f] IN Post(p, RawFold(f, ZerosRaw(p, RawFold(f, Pre(p, seed), a), nbits), b))
+(* crc(A \o B) from crc(A) (any seed), crc(B) (seed 0) and the length of B: the map is affine in the register *)
+Combine(f, crcA, crcB, nbitsB) == LET p == Params[f]  n == Len(p.poly)
+    raw0B == LimbXor(Pre(p, crcB), ZerosRaw(p, Pre(p, LimbZero(n)), nbitsB))          \* B folded from the all-zero register
+  IN Post(p, LimbXor(ZerosRaw(p, Pre(p, crcA), nbitsB), raw0B))
+BitsOf(n) == IF n = 0 THEN <<>> ELSE LET k == CHOOSE k \in 1..31 : P2(k) > n /\ P2(k - 1) <= n IN [i \in 1..k |-> Bit(n, k - i)]
+AlgebraOK == \A f \in FnNames : LET n == Len(Params[f].poly)  a == <<1, 2, 3, 250>>  b == <<9, 0, 77>> IN
+     /\ \A z \in {0, 1, 2, 7, 300} : CrcWithZeros(f, LimbOnes(n), a, BitsOf(z), b) = Crc(f, LimbOnes(n), a \o [i \in 1..z |-> 0] \o b)
+     /\ Combine(f, Crc(f, LimbOnes(n), a), Crc(f, LimbZero(n), Check9), BitsOf(9)) = Crc(f, LimbOnes(n), a \o Check9)
+     /\ Combine(f, Crc(f, LimbZero(n), <<>>), Crc(f, LimbZero(n), b), BitsOf(3)) = Crc(f, LimbZero(n), b)
+(* Adler-32 through n zero bytes: A unchanged, B += n * A (mod 65521), by Horner over the binary digits of n *)
+AdlerZeros(s, nbits) == <<s[1], (s[2] + FoldLeft(LAMBDA r, bit : (2 * r + bit * s[1]) % AdlerMod, 0, nbits)) % AdlerMod>>
+AdlerWithZeros(seed, a, nbits, b) == Adler(AdlerZeros(Adler(seed, a), nbits), b)
+AdlerAlgebraOK == \A z \in {0, 1, 5, 5552, 70000} : AdlerWithZeros(<<1, 0>>, Check9, BitsOf(z), <<200, 3>>) = Adler(<<1, 0>>, Check9 \o [i \in 1..z |-> 0] \o <<200, 3>>)
+
 (* ---- anchors: published check values for the ASCII string "123456789" ---- *)
-Check9 == <<49, 50, 51, 52, 53, 54, 55, 56, 57>>
 CheckValuesOK ==
   /\ Crc("crc16_t10dif", <<0>>, Check9) = <<53467>>                          \* CRC-16/T10-DIF  D0DB
   /\ Crc("crc32_gzip_refl", <<0, 0>>, Check9) = <<14630, 52212>>             \* CRC-32/ISO-HDLC CBF43926
